@@ -47,7 +47,7 @@ OutOfScope(w, op) ==
       [] op.k = "scale_y" -> op.v = Zero
       \* the reference is cut with the same bounds: a cut that leaves fewer than two working or reference samples (possible
       \* once the series has been reshaped and the two no longer have the same length) is outside the documented use
-      [] op.k = "truncate_index" -> ~Rejects(w, op) /\ (StopIdx(w.x, op.stop) - op.start < 2 \/ op.stop < 0
+      [] op.k = "truncate_index" -> ~Rejects(w, op) /\ (StopIdx(w.x, op.stop) - op.start < 2 \/ (op.stop # NoneInt /\ op.stop < 0)
                                                         \/ Len(SliceSeq(w.rx, op.start, StopIdx(w.x, op.stop), 1)) < 2)
       [] op.k = "truncate_value" -> ~Rejects(w, op) /\
                                     (\/ Len(w.rx) < 2
@@ -125,6 +125,24 @@ Outcome(w, op) == IF Rejects(w, op) THEN "ValueError" ELSE "ok"
 
 RECURSIVE RunOps(_, _, _)
 RunOps(w, ops, k) == IF k > Len(ops) THEN w ELSE RunOps(Call(w, ops[k]), ops, k + 1)
+
+(***************************************************************************)
+(* Values returned by the read-only operations (beyond the listed          *)
+(* properties): len, to_2d_array (rows (x_i, y_i), flattened), slices.     *)
+(***************************************************************************)
+Interleave(x, y) == [i \in 1..(2 * Len(x)) |-> IF Mod(i, 2) = 1 THEN x[(i + 1) \div 2] ELSE y[i \div 2]]
+ReadResult(w, op) ==
+    CASE op.k = "len" -> <<RInt(Len(w.x))>>
+      [] op.k = "to_2d_array" -> Interleave(w.x, w.y)
+      [] op.k = "slice_index" ->
+            LET st == IF "step" \in DOMAIN op THEN op.step ELSE 1
+            IN SliceSeq(w.x, op.start, StopIdx(w.x, op.stop), st) \o SliceSeq(w.y, op.start, StopIdx(w.x, op.stop), st)
+      [] op.k = "slice_value" ->
+            LET s0 == IF op.start = None THEN 0 ELSE (CHOOSE i \in 1..Len(w.x) : w.x[i] = op.start) - 1
+                s1 == IF op.stop = None THEN Len(w.x) ELSE (CHOOSE i \in 1..Len(w.x) : w.x[i] = op.stop)
+            IN SliceSeq(w.x, s0, s1, 1) \o SliceSeq(w.y, s0, s1, 1)
+      [] op.k = "to_function" -> w.y                      \* the default (interpolating) spline evaluated at the samples
+      [] OTHER -> <<>>
 
 (***************************************************************************)
 (* Property clauses on states / steps                                      *)
